@@ -54,12 +54,16 @@ for m in missing[:25]:
     path = "/".join(parts[:2]) + ".py"
     nodeid = path + "::" + "::".join(parts[2:] + [name])
     env = dict(os.environ); env.pop("TENSORDICT_VERIF", None); env.pop("VERIF_SHARD", None)
-    try:
-        r = subprocess.run(["/venv/bin/python", "-m", "pytest", "-q", "-p", "no:cacheprovider", "--timeout=600", nodeid],
-                           cwd=os.getcwd(), env=env, stdout=subprocess.PIPE, stderr=subprocess.STDOUT, text=True, timeout=900)
-        ok = r.returncode == 0
-    except subprocess.TimeoutExpired:
-        ok = False
+    ok = False
+    for attempt in range(3):   # load-sensitive multiprocessing tests: up to three attempts alone
+        try:
+            r = subprocess.run(["/venv/bin/python", "-m", "pytest", "-q", "-p", "no:cacheprovider", "--timeout=600", nodeid],
+                               cwd=os.getcwd(), env=env, stdout=subprocess.PIPE, stderr=subprocess.STDOUT, text=True, timeout=900)
+            ok = r.returncode == 0
+        except subprocess.TimeoutExpired:
+            ok = False
+        if ok:
+            break
     print("  RETRY ALONE:", m, "->", "passed" if ok else "FAILED")
     if not ok: still.append(m)
 print("FINAL: stable tests not passing even alone:", len(still) + max(0, len(missing) - 25))
